@@ -18,13 +18,17 @@ for sid in sorted(os.listdir(os.path.join(ROOT, 'seeded'))):
     mech = re.sub(r'\s+', ' ', mech.replace('mechanism:', '')).strip()
     mech = mech.split(';')[0][:90]
     what = (m.get('breaks') or '').replace('|', '/').replace('\n', ' ')[:150]
+    if m.get('not_caught_reason') and not caught:
+        mech = 'outside the quantifier, see meta.json'
     rows.append('| %s | %s | %s | %s | `%s` |' % (
         sid, what, ' '.join(sorted(caught)) or '**none**',
         ' '.join(sorted(tried - caught)) or '-', mech))
-head = ('140 independently written breakages (round 1: two per property, ids '
+head = ('180 independently written breakages (round 1: two per property, ids '
         '`Cxx-a/b`; round 2: three per property, ids `Cxx-r2a/b/c`; round 3, '
         'asked for changes that need two coinciding conditions: two per '
-        'property, ids `Cxx-r3a/b`), all '
+        'property, ids `Cxx-r3a/b`; round 4, asked for two cooperating edits '
+        '(a) and an error / reuse / exact-boundary path (b): ids '
+        '`Cxx-r4a/b`), all '
         'confirmed (apply, 176 repository tests pass, demonstration fails '
         'with / passes without). "caught by" lists every quick check that '
         'reported a VIOLATION on a scratch copy with the patch applied (the '
@@ -32,7 +36,7 @@ head = ('140 independently written breakages (round 1: two per property, ids '
         'run); "also run, silent" the others that were tried. The last '
         'column is the first mechanism the tagged check printed.\n\n'
         'First-pass result before any strengthening: round 1 36/40 caught by '
-        'the tagged check, round 2 44/60, round 3 27/40. Each miss was '
+        'the tagged check, round 2 44/60, round 3 27/40, round 4 30/40. Each miss was '
         'analysed and the '
         'check strengthened (never the seeded change adapted): C02 codec '
         'spelling sweep; C07 exact-byte-count and mid-line-cut mechanisms; '
@@ -52,8 +56,17 @@ head = ('140 independently written breakages (round 1: two per property, ids '
         'headers on block boundaries in LF and CRLF files, option names that '
         'collide with reader internals; C14 sign-flipped body lines; C15 '
         'consecutive sections sharing line_endings but not the codec; C17 '
-        'headers > 4 kB; C20 CRLF delta / literal lines. After that all 140 '
-        'are caught by their tagged check.\n\n'
+        'headers > 4 kB; C20 CRLF delta / literal lines; (round 4) C06 second '
+        'serialisation of the same object; C07 a yielded section must be '
+        'non-empty and end in its newline even under a merely wrong length; '
+        'C10 blank separator lines before headers; C14 "%" in hunk header '
+        'context; C16 cold / warm library state and >= 64 KiB buffers split '
+        'repeatedly; C18 / C19 equality with an untouched twin before and '
+        'after observers, equality matrix under observers, foreign files '
+        'with {} metadata; C20 dos metadata. After that 179 of 180 are '
+        'caught by their tagged check; C04-r4a only manifests for '
+        "encoding='' which is outside C04's quantifier (its meta.json says "
+        'why).\n\n'
         '| id | change | caught by | also run, silent | first mechanism (tagged check) |\n'
         '|---|---|---|---|---|\n')
 mut = json.load(open(os.path.join(ROOT, 'mutants', 'index.json')))
